@@ -97,6 +97,39 @@ pub fn trailing_trivia(m: &Model, ctx: &mut Ctx, rule: &str) {
     let roots = ["top_level_type_declaration", "top_level_value_declaration", "top_level_information_declaration", "top_level_information_object_declaration", "top_level_object_set_declaration", "top_level_class_declaration"];
     let mut seen: BTreeSet<String> = BTreeSet::new();
     let mut work: Vec<String> = roots.iter().map(|s| s.to_string()).collect();
+    // every alternative of the module parser's list of assignments is a root (MACRO definitions, class assignments, ..)
+    match by_name("asn_module") {
+        Some(am) => {
+            let mut found = 0;
+            for c in model::calls_in(&am.block) {
+                if model::callee_name(&c).as_deref() != Some("many0") {
+                    continue;
+                }
+                struct P { out: Vec<String> }
+                impl model::DeepCb for P {
+                    fn expr(&mut self, e: &syn::Expr) {
+                        if let syn::Expr::Call(c) = e {
+                            if model::callee_name(c).as_deref() == Some("map") {
+                                if let Some(syn::Expr::Path(p)) = c.args.first() {
+                                    if let Some(id) = p.path.segments.last() {
+                                        self.out.push(id.ident.to_string());
+                                    }
+                                }
+                            }
+                        }
+                    }
+                }
+                let mut p = P { out: vec![] };
+                if let Some(a) = c.args.first() {
+                    model::deep_walk_expr(a, &mut p);
+                }
+                found += p.out.len();
+                work.extend(p.out);
+            }
+            ctx.floor(&format!("{}/assignment-alternatives", rule), found, 5);
+        }
+        None => ctx.fail_closed(rule, "anchor not found: lexer::asn_module"),
+    }
     let mut checked = 0;
     while let Some(n) = work.pop() {
         if !seen.insert(n.clone()) {
@@ -131,9 +164,18 @@ pub fn trailing_trivia(m: &Model, ctx: &mut Ctx, rule: &str) {
                             } else {
                                 visit(inner, viol, next, depth + 1);
                             }
-                        } else if ["opt", "many0", "many1", "cut"].contains(&name.as_str()) {
+                        } else if ["opt", "many0", "many1", "cut", "many0_count", "recognize"].contains(&name.as_str()) {
                             if let Some(a) = args.first() {
-                                visit(a, viol, next, depth + 1);
+                                // a repetition of comments (and white space) in tail position eats the comments in front of
+                                // whatever comes next: `tag(END)` followed by `many0(alt((comment, multispace1)))` is right at the
+                                // end of a module and wrong at the end of a definition inside one
+                                let body = model::tok(*a);
+                                let eats_comments = ["comment", "line_comment", "block_comment"].iter().any(|c| body == *c || body.contains(&format!("({}", c)) || body.contains(&format!(",{}", c)) || body.contains(&format!("({},", c)));
+                                if ["opt", "many0", "many1", "many0_count"].contains(&name.as_str()) && eats_comments {
+                                    viol.push((name.clone(), "comment".into(), model::line_of(syn::spanned::Spanned::span(c))));
+                                } else {
+                                    visit(a, viol, next, depth + 1);
+                                }
                             }
                         }
                     }
